@@ -52,6 +52,14 @@ CHECKS = {
             'injected into generated frames of both orientations and compared pixel by pixel with a reference evaluation.',
             'tolerance derived from the profile Lipschitz bound times 64 ulp(fmax); box-edge pixels excluded and counted; randomised families via same-seed twin; array bandpass only in its unambiguous full-band form',
             'DESIGN.md 3/C01'),
+    'C16': ('fault_enumeration',
+            'Hypothesis generated cadences and signals vs per-frame reference at shifted times; enumerated fault injection (callback raising on its k-th call for every k); invariant: time axes bit-identical',
+            'Generated cadences (frame counts, tchans, gaps, unix-scale start times, slices and label subsets, slew overwrite) receive 1-3 '
+            'injections with all C01 options; each member\'s added data is compared with the reference at frame.ts + (t_start_k - t_start_0); '
+            'for the drawn callable component a raising wrapper is installed for every call index k and the time axes must be bit-identical afterwards; '
+            'slew overwrite and consolidate() are compared with closed forms.',
+            'fault points enumerated per generated case (every frame index), not over all cases; tolerance as C01; arrays only with equal tchans',
+            'DESIGN.md 3/C16'),
 }
 
 ALL = [f'C{i:02d}' for i in range(1, 21)]
